@@ -200,16 +200,6 @@ def generate():
         if not m:
             raise Missing("%s: cannot understand the user-id expression %r in %s" % (f, sites[0], fn))
         I(coq, int(m.group(1) or 0), f)
-    # lookup_audit: which sock_addr_audit_entry field feeds each AuditEntry field (index into
-    # [logon_id, process_id, is_root, destination_ipv4, destination_port]); casts must be the known ones
-    f = "proxy_agent/src/redirector/linux.rs"
-    lit = regex_str(f, r"pub fn lookup_audit\b.*?Ok\(AuditEntry\s*\{(.*?)\}\)", "AuditEntry literal in lookup_audit")
-    order = ["logon_id", "process_id", "is_root", "destination_ipv4", "destination_port"]
-    for field, cast in (("logon_id", "u64"), ("process_id", None), ("is_admin", "i32"), ("destination_ipv4", None), ("destination_port", "u16")):
-        m = re.search(r"\b%s\s*:\s*audit_value\.(\w+)\s*(?:as\s+(\w+))?\s*," % field, lit)
-        if not m or m.group(1) not in order or m.group(2) != cast:
-            raise Missing("%s: lookup_audit: cannot understand how AuditEntry.%s is filled" % (f, field))
-        I("rust_lookup_audit_src_" + field, order.index(m.group(1)), f)
 
     # ---- provisioning (C16) ----
     f = "proxy_agent/src/provision.rs"
@@ -225,6 +215,8 @@ def generate():
     plines = re.findall(r"!provision_state\.contains\(ProvisionFlags::(\w+)\)\s*\{\s*state\.push_str\(&format!\(\s*\"((?:[^\"\\]|\\.)*)\"\s*,.*?AgentStatusModule::(\w+)", fbody, flags=re.S)
     if len(plines) != 3:
         raise Missing("%s: get_provision_failed_state_message: expected 3 `if !provision_state.contains(..)` lines, found %d" % (f, len(plines)))
+    if sorted(flag for flag, _, _ in plines) != ["KEY_LATCH_READY", "LISTENER_READY", "REDIRECTOR_READY"]:
+        raise Missing("%s: get_provision_failed_state_message: the three lines do not test the three flags once each: %s" % (f, [x[0] for x in plines]))
     for flag, fmt, module in plines:
         fmt = bytes(fmt, "utf-8").decode("unicode_escape")
         if fmt.count("{}") != 1:
